@@ -2959,16 +2959,28 @@ fn generate_constraints_expr(
                                 node_ty.clone(),
                             );
                         }
-                        Some(Declaration::MemberFunction(func)) if receiver_has_methods => {
+                        Some(Declaration::MemberFunction(memfn)) if receiver_has_methods => {
                             // fully qualified struct/enum method
                             // example: Person.fullname(my_person)
                             //          ^^^^^
-                            helper(ctx, func.name.node(), None);
+                            let has_self = memfn.args.first().is_some_and(|a| a.name.v == "self");
+                            if has_self && args.first().is_some_and(|a| a.name.is_none()) {
+                                // the receiver is passed explicitly as the first argument; named
+                                // arguments and defaults apply to the remaining parameters
+                                calculate_func_call_order(ctx, func.node(), &args[1..], expr.node());
+                                if let Some(order) = ctx.function_call_arg_order.get_mut(&expr.id) {
+                                    order.insert(0, args[0].val.clone());
+                                }
+                            } else {
+                                calculate_func_call_order(ctx, func.node(), args, expr.node());
+                            }
+                            helper(ctx, memfn.name.node(), None);
                         }
-                        Some(Declaration::FreeFunction(FuncResolutionKind::Ordinary(func))) => {
+                        Some(Declaration::FreeFunction(FuncResolutionKind::Ordinary(f))) => {
                             // namespaced function
                             // example: term.enable_raw_mode()
-                            helper(ctx, func.name.node(), None);
+                            calculate_func_call_order(ctx, func.node(), args, expr.node());
+                            helper(ctx, f.name.node(), None);
                         }
                         Some(Declaration::FreeFunction(FuncResolutionKind::Host(func))) => {
                             helper(ctx, func.name.node(), None);
